@@ -450,11 +450,16 @@ func (l *logStore) UpdateData(s *swap.SwapStateMachine) error {
 		if string(s.Current) == "State_SendCancel" {
 			l.w.cancelTried[id] = true
 		}
-		fl["csvwatch"], fl["invpaid"] = "0", "0"
+		fl["csvwatch"], fl["invpaid"], fl["confwatch"] = "0", "0", "0"
 		for _, ch := range []*simChain{l.w.btc, l.w.lbtc} {
 			for _, wt := range ch.csvWatch {
 				if wt.swapId == id {
 					fl["csvwatch"] = "1"
+				}
+			}
+			for _, wt := range ch.confWatch {
+				if wt.swapId == id {
+					fl["confwatch"] = "1"
 				}
 			}
 		}
